@@ -272,6 +272,9 @@ func maskOf(v value, k types.BasicKind) (uint64, bool) {
 	case *sym:
 		_, signed := kindBits(k)
 		if v.maskOK {
+			if signed {
+				return v.mask, true
+			}
 			return v.mask & typeMask(k), true
 		}
 		if signed {
@@ -553,6 +556,9 @@ func (i *interpreter) symBinop(op token.Token, t types.Type, x, y value) value {
 			r := &sym{term: wrapAny("(* "+a+" "+pow2(n).String()+")", k), kind: kInt, bk: k}
 			if m, ok := maskOf(x, k); ok && !signed {
 				r.mask, r.maskOK = (m<<n)&typeMask(k), true
+			} else if ok && signed && (m<<n)>>n == m && (m<<n)>>(bits-1) == 0 {
+				// non-negative value whose shifted bits stay below the sign bit
+				r = &sym{term: "(* " + a + " " + pow2(n).String() + ")", kind: kInt, bk: k, mask: m << n, maskOK: true}
 			}
 			if sx, ok := x.(*sym); ok && sx.asmSrc != "" && !signed && bits == 64 && n%8 == 0 {
 				// all bytes must stay inside the word
@@ -673,6 +679,10 @@ func (i *interpreter) symBitop(op token.Token, k types.BasicKind, x, y value) va
 	mk := func(term string, mask uint64, maskOK bool) value {
 		// term is the unsigned bit pattern value in [0,2^bits); convert to signed if needed
 		if signed {
+			if maskOK && mask>>(bits-1) == 0 {
+				// the bit pattern is non-negative and fits: no wrap needed
+				return &sym{term: term, kind: kInt, bk: k, mask: mask, maskOK: true}
+			}
 			term = wrapAny(term, k)
 			return &sym{term: term, kind: kInt, bk: k}
 		}
@@ -752,6 +762,8 @@ func symConvInt(x *sym, to types.BasicKind) value {
 		r := &sym{term: x.term, kind: kInt, bk: to}
 		if _, fsigned := kindBits(from); !fsigned {
 			r.mask, r.maskOK = maskOf(x, from)
+		} else if x.maskOK {
+			r.mask, r.maskOK = x.mask, true
 		}
 		if _, tsigned := kindBits(to); !tsigned {
 			r.asmSrc, r.asmHave, r.asmOff = x.asmSrc, x.asmHave, x.asmOff
